@@ -20,12 +20,13 @@ Notation reach_by := (Server.reach_by decomp decode K).
 Notation next_input := (Server.next_input decomp decode).
 
 (* SCOPE of 1(a) and 3 for the thread pool: connections are identified with their table keys, which the model never reuses (see the SCOPE note
-   at c17_pool_single_owner: descriptor-number reuse is checked by the harness op `hookhold`).  SCOPE of 2(a): [EAcceptFail] is an error of
-   listener.accept(); failure to START the worker for an accepted client (spawn / os.fork at the thread or process limit) is not an event of
-   the model -- harness op `nospawn`, finding accept-loop-ended-on-spawn-failure:threaded. *)
+   at c17_pool_single_owner: descriptor-number reuse is checked by the harness op `hookhold`).  2(a): [EAcceptFail] is an error of
+   listener.accept(); [ESpawnFail] is the failure to START the worker for an accepted client (spawn / os.fork at the thread or process
+   limit: harness op `nospawn`, finding accept-loop-ended-on-spawn-failure:threaded, fact accept_survives_spawn_failure). *)
 (* 1. isolation.  (a) Nothing a client does, and nothing the server does on behalf of that client -- accepting it, serving,
       failing, dropping it -- changes the record (service instance, table, buffers, replies) of any OTHER connection. *)
-Theorem c16_isolation_noninterference : forall s e s', kind K <> OneShot -> e <> EClose -> e <> EAcceptFail -> step e s = Some s' ->
+Theorem c16_isolation_noninterference : forall s e s', kind K <> OneShot -> e <> EClose -> e <> EAcceptFail ->
+  (e = ESpawnFail -> Server.accept_survives_spawn_failure (fx K) = true) -> step e s = Some s' ->
   forall x, subject s e <> Some x -> conns s' x = conns s x.
 Proof. exact (noninterference decomp decode K). Qed.
 (*    (b) With a service class registered, a connection's service instance, table and replies are a function of the
@@ -49,16 +50,27 @@ Proof. exact (foreign_id_never_resolves decomp decode K). Qed.
 (* 2. confinement (threaded and forking servers; the one-shot server for its single client).
       (a) Whatever the clients did, as long as nobody called close() the accept loop takes the next queued connection --
       provided accept() itself did not fail with an OS error ([EAcceptFail]: descriptor limit reached, connection aborted), or the
-      tree's accept loop survives such errors (fact accept_survives_oserror).  On a tree that does not, see
-      c16_accept_error_refuted: the accept loop ends and start() closes the server, throwing every client out. *)
+      tree's accept loop survives such errors (fact accept_survives_oserror), and likewise for a worker thread / child process that
+      cannot be started ([ESpawnFail], fact accept_survives_spawn_failure).  On a tree that does not, see c16_accept_error_refuted and
+      c16_spawn_failure_refuted: the accept loop ends and start() closes the server, throwing every client out. *)
 Theorem c16_accept_stays_enabled : forall l s, kind K = Threaded \/ kind K = Forking -> reach_by l s -> ~ In EClose l ->
   (Server.accept_survives_oserror (fx K) = true \/ ~ In EAcceptFail l) ->
+  (Server.accept_survives_spawn_failure (fx K) = true \/ ~ In ESpawnFail l) ->
   backlog s <> [] -> exists s', step EAccept s = Some s'.
 Proof.
-  intros l s Hk R Nc Nf Hb. apply (accept_stays_enabled decomp decode K l s); auto.
+  intros l s Hk R Nc Nf Ns Hb. apply (accept_stays_enabled decomp decode K l s); auto.
   - destruct Hk; congruence.
   - apply (threaded_forking_never_busy decomp decode K s Hk). now exists l.
 Qed.
+(*    (a') A client for which no worker can be started costs that client and nobody else: the server stays open, every other
+      connection's record is untouched, the client's socket is closed and forgotten, no disconnect hook runs for a connection that never
+      existed, and (by (a)) the loop goes on to the next queued connection. *)
+Theorem c16_spawn_failure_costs_one : forall s c rest s', kind K <> OneShot -> Server.accept_survives_spawn_failure (fx K) = true ->
+  backlog s = c :: rest -> step ESpawnFail s = Some s' ->
+  closed s' = closed s /\ (forall x, x <> c -> conns s' x = conns s x)
+  /\ stg (conns s' c) = Finished /\ shut (conns s' c) = true /\ authd (conns s' c) = authd (conns s c) /\ hooks (conns s' c) = hooks (conns s c)
+  /\ mem c (clients s') = false /\ workers s' = workers s.
+Proof. exact (spawn_failure_costs_one decomp decode K). Qed.
 (*    (b) A well-behaved client's next request is served by its own worker from its own state, with the reply of its own
       endpoint -- no hypothesis about any other connection. *)
 Theorem c16_good_client_served : forall s c q rest,
@@ -106,6 +118,7 @@ Print Assumptions c16_isolation_own_bytes.
 Print Assumptions c16_only_given_ids_resolve.
 Print Assumptions c16_foreign_id_never_resolves.
 Print Assumptions c16_accept_stays_enabled.
+Print Assumptions c16_spawn_failure_costs_one.
 Print Assumptions c16_good_client_served.
 Print Assumptions c16_worker_failure_confined.
 Print Assumptions c16_pool_liveness_partial.
@@ -119,6 +132,20 @@ Theorem c16_accept_error_refuted : forall decomp decode K, kind K = Threaded -> 
     /\ closed s = true /\ active s = false /\ shut (conns s 1) = true /\ authd (conns s 1) = true /\ gone (conns s 1) = false.
 Proof. exact accept_error_refuted. Qed.
 Print Assumptions c16_accept_error_refuted.
+
+(* Refutation of 2(a') on a tree that lets the failure to start a worker leave accept(): one served client, a second one connects while
+   the thread limit is reached: the server is closed although nobody called close(), and the FIRST client has been thrown out (F96). *)
+Theorem c16_spawn_failure_refuted : forall decomp decode K, kind K = Threaded -> has_auth K = false ->
+  Server.accept_survives_spawn_failure (fx K) = false ->
+  exists s, exec decomp decode K [EConnect 1 AuthOk; EAccept; EWork 1; EConnect 2 AuthOk; ESpawnFail] (init K) = Some s
+    /\ closed s = true /\ active s = false /\ shut (conns s 1) = true /\ authd (conns s 1) = true /\ gone (conns s 1) = false.
+Proof. exact spawn_failure_refuted. Qed.
+Print Assumptions c16_spawn_failure_refuted.
+(* non-vacuity of c16_spawn_failure_costs_one: on the generated facts the event is enabled for a threaded server with a queued client *)
+Example c16_spawn_failure_enabled : forall decomp decode,
+  let K := {| kind := Threaded; fx := gen_facts; has_auth := false; class_svc := true; nworkers := 0; batch := 1; auth_replaces := false |} in
+  exists s s', exec decomp decode K [EConnect 1 AuthOk] (init K) = Some s /\ backlog s = [1] /\ Server.step decomp decode K ESpawnFail s = Some s'.
+Proof. intros decomp decode K. eexists _, _. repeat split. Qed.
 
 (* Refutation of pool liveness (F7): nbThreads = 2, two clients that sent a truncated frame (header promises 10 bytes) and stay
    connected, one well-behaved client with a complete request.  Both workers sit in Channel.recv; the good client's
@@ -169,7 +196,7 @@ Print Assumptions c16_pool_worker_survives_when_caught.
 
 (* The model is the one the current source was translated to. *)
 Theorem c16_program_is_current :
-  Gen_server.accept_prog = Server.accept_prog_of Gen_server.accept_survives_oserror Gen_server.accept_rechecks_closed /\ Gen_server.worker_prog = Server.worker_prog_of Gen_server.worker_tracks_served
+  Gen_server.accept_prog = Server.accept_prog_of Gen_server.accept_survives_oserror Gen_server.accept_rechecks_closed Gen_server.accept_survives_spawn_failure /\ Gen_server.worker_prog = Server.worker_prog_of Gen_server.worker_tracks_served
   /\ Gen_server.serve_client_prog = Server.serve_client_prog /\ Gen_server.handle_prog = Server.handle_prog
   /\ Gen_server.threaded_prog = Server.threaded_prog /\ Gen_server.forking_prog = Server.forking_prog
   /\ Gen_server.pool_accept_prog = Server.pool_accept_prog_of Gen_server.pool_fail_discards
@@ -187,7 +214,8 @@ Print Assumptions c16_program_is_current.
 (* ---- non-vacuity ---- *)
 Definition KT16 (k : skind) (cls : bool) : cfg :=
   {| kind := k; fx := {| Server.pool_close_drops := true; Server.pool_fail_discards := true; Server.fork_parent_keeps := false; Server.pool_catches_base := false;
-             Server.worker_tracks_served := false; Server.accept_survives_oserror := false; Server.accept_rechecks_closed := false |};
+             Server.worker_tracks_served := false; Server.accept_survives_oserror := false; Server.accept_rechecks_closed := false;
+             Server.accept_survives_spawn_failure := false |};
      has_auth := false; class_svc := cls; nworkers := 2; batch := 10; auth_replaces := false |}.
 Definition d16 (b : list byte) : option req :=
   if bytes_eqb b [x51] then Some QRoot else if bytes_eqb b [x52] then Some (QMake (1, 0)) else if bytes_eqb b [x53] then Some (QStr (1, 1)) else None.
